@@ -107,4 +107,18 @@ theorem skel_isSessionCookieName_ok : skel_isSessionCookieName = ([
   "return candidate == splitCookieName(name, count)",
   "splitCookieName"] : List String) := rfl
 
+theorem skel_Manager_Clear_ok : skel_Manager_Clear = ([
+  "decodeTicketFromRequest",
+  "if err != nil",
+  "tckt.clearCookie",
+  "if err == http.ErrNoCookie",
+  "return nil",
+  "return fmt.Errorf(\"error decoding ticket to clear session: %v\", err",
+  "tckt.clearCookie",
+  "return tckt.clearSession(func(key string) error { return m.Store.Cl",
+  "tckt.clearSession",
+  "func{",
+  "return m.Store.Clear(req.Context(), key)",
+  "m.Store.Clear"] : List String) := rfl
+
 end O2P.Expect.C10
